@@ -115,6 +115,14 @@ impl AddAssignSpecImpl for Decimal {
 impl core::ops::AddAssign for Decimal {
     #[verifier::external_body]
     fn add_assign(&mut self, rhs: Decimal) ensures final(self).v() == old(self).v() + rhs.v() { unimplemented!() } }
+impl<'a> AddAssignSpecImpl<&'a Decimal> for Decimal {
+    open spec fn obeys_add_assign_spec() -> bool { false }
+    open spec fn add_assign_req(&self, rhs: &'a Decimal) -> bool { true }
+    uninterp spec fn add_assign_spec(&self, rhs: &'a Decimal) -> &Decimal;
+}
+impl<'a> core::ops::AddAssign<&'a Decimal> for Decimal {
+    #[verifier::external_body]
+    fn add_assign(&mut self, rhs: &'a Decimal) ensures final(self).v() == old(self).v() + rhs.v() { unimplemented!() } }
 impl SubAssignSpecImpl for Decimal {
     open spec fn obeys_sub_assign_spec() -> bool { false }
     open spec fn sub_assign_req(&self, rhs: Decimal) -> bool { true }
